@@ -97,11 +97,20 @@ STATEFUL = [
     "generateMany($.n, range($), $ * 10).take(8)",
     "$.src.select($ * 2).take(3)", "$.src.where($ mod 2 = 0).take(2)",
     "$.src.memorize().take(4).toList()", "$.src.take(3).orderBy(-$)",
+    "sq($.n)", "$.list.select(sq($))", "pairUp($.n)", "$.list.select(pairUp($))",
+    "addN($.n, 2)", "[sq($.n), addN($.n, $.n)]", "$.list.select(addN($, 1)).sum()",
+    "$hostdict.delete(k)", "$hostdict.deleteAll([k, m])", "$hostvar.delete(0)",
+    "$hostdict.remove(k)", "$hostvar.insert(0, $.n)", "$hostvar.replace(0, $.n)",
+    "$hostdict.m.set(w, $.n)", "$hostvar[2] + [$.n]", "$hostdict.k.append($.n)",
     "$yobj.foo", "$yobj.bar", "[$yobj.foo, $yobj.name]", "$yobj.upper($.s)",
     "$yobj.items[0]", "$yobj.add($.n, 1)", "[$yobj.bar, $yobj.add(1, $.n)]",
     "$yobj2.foo", "[$yobj2.name, $yobj.name]", "$yobj.child.foo",
     "$.list.select($yobj.add($, 1))", "$.strs.select($yobj.upper($))",
 ]
+
+
+BROKEN = ["$.list.select(", "1 +", "$.n + * 2", "[1, 2", "$.s =~", "foo(,)",
+          "$.list.where($ >", "'abc", "$.n $.n", "{a => }"]
 
 
 def pool():
@@ -148,7 +157,8 @@ def gen_case(seeds, params, index):
         r = w.random()
         if eval_flavour:
             stmts.append({'kind': 'text', 'flavour': 'default',
-                          'expr': w.choice(STATEFUL[:60])})
+                          'expr': w.choice(STATEFUL[:60]) if w.random() < 0.75
+                          else w.choice(BROKEN)})
         elif r < 0.6:
             stmts.append({'kind': 'text', 'flavour': 'default',
                           'expr': w.choice(STATEFUL)})
@@ -270,6 +280,12 @@ class World:
             root = synth.chain_contexts('default')
         P = root.create_child_context()
         P['yobj'], P['yobj2'] = make_host_objects()
+        # the host prepares part of the shared context with yaql itself: the
+        # lambdas behind these functions outlive the evaluation that made them
+        eng = synth.chain_engine('default')
+        for text in ('def(sq, $ * $)', 'def(pairUp, [$, $ + 1])',
+                     'def(addN, $1 + $2)'):
+            P = eng(text).evaluate(context=P)
 
         def probe(x):
             return x
